@@ -1,6 +1,7 @@
 import KoordVerif.Proofs.C04Permit
 import KoordVerif.Proofs.C04ExtConc
 import KoordVerif.Proofs.C04ExtGroup
+import KoordVerif.Proofs.C04ExtRace
 /-
 C04 — gang scheduling is all-or-nothing across the whole gang group (property theorems).
 
@@ -31,9 +32,15 @@ counts (waiting, or waiting + bound under waiting-and-running).
    permit_snapshot              each gang was valid at the moment it was inspected
    permit_snapshot_atomic       with no interleaved event the small-step loop is the atomic test
    permit_race_witness          a racing delete can make the atomic statement false at return
+   permit_race_bound            the strongest statement for that race: at return the i-th gang is gone (only if a
+                                deletion of one of its members raced), exempt, or holds min minus the number of
+                                deletions of ITS members delivered after ITS inspection
+   permit_race_unraced_valid    hence a gang with no such deletion is still valid at return
+   nodupSets_all_histories      the hypothesis of the two (the key sets are duplicate-free) holds in every reachable state
  E. goroutines racing on one gang, at critical-section granularity (Proofs/C04ExtConc.lean)
    setChild_atomic_safe         setChild = ONE critical section (a regenerated fact): under EVERY interleaving of
                                 informer / scheduling / binding goroutines no member is ever in two sets
+   setChild_atomic_partition_at_barrier   ... and at every barrier (all goroutines returned) the FULL partition holds
    setChild_split_counterexample   setChild split into decide | insert: an interleaving with Permit leaves the pod
                                 pending AND waiting (and with PostBind pending AND bound)
    setChild_split_sequentially_same   ... although the two shapes agree whenever nothing runs in between
@@ -483,6 +490,214 @@ theorem permit_race_witness :
     r.1 = true ∧ allValid r.2.1 [0, 1] = false := by
   decide
 
+/-! ### D'. how far a gang can have shrunk when the racy Permit returns -/
+
+theorem headD_delBatch (dels : List (List (Pod × GangId))) (s : State) :
+    ((dels.map delBatch).headD id) s = delBatch (dels.headD []) s := by
+  cases dels <;> rfl
+
+theorem tail_delBatch (dels : List (List (Pod × GangId))) : (dels.map delBatch).tail = dels.tail.map delBatch := by
+  cases dels <;> rfl
+
+theorem inspectLoop_cons (s : State) (a : GangId) (t : List GangId) (envs : List (State → State)) :
+    inspectLoop s (a :: t) envs =
+      match findGang ((envs.headD id) s).gangs a with
+      | some gh =>
+        if validForPermit ((envs.headD id) s) gh then
+          ((inspectLoop ((envs.headD id) s) t envs.tail).1, (inspectLoop ((envs.headD id) s) t envs.tail).2.1,
+            ((envs.headD id) s, a) :: (inspectLoop ((envs.headD id) s) t envs.tail).2.2)
+        else (false, (envs.headD id) s, [])
+      | none => (false, (envs.headD id) s, []) := by
+  rw [inspectLoop] <;> rfl
+
+/-- one step of the small-step loop when it goes on -/
+theorem inspectLoop_cons_true (s : State) (a : GangId) (t : List GangId) (dels : List (List (Pod × GangId)))
+    (hs : (inspectLoop s (a :: t) (dels.map delBatch)).1 = true) :
+    ∃ gh, findGang (delBatch (dels.headD []) s).gangs a = some gh ∧
+      validForPermit (delBatch (dels.headD []) s) gh = true ∧
+      (inspectLoop (delBatch (dels.headD []) s) t (dels.tail.map delBatch)).1 = true ∧
+      (inspectLoop s (a :: t) (dels.map delBatch)).2.1 =
+        (inspectLoop (delBatch (dels.headD []) s) t (dels.tail.map delBatch)).2.1 := by
+  rw [inspectLoop_cons] at hs ⊢
+  simp only [headD_delBatch, tail_delBatch] at hs ⊢
+  split at hs
+  next gh e =>
+    by_cases hv : validForPermit (delBatch (dels.headD []) s) gh = true
+    · rw [if_pos hv] at hs
+      refine ⟨gh, e, hv, hs, ?_⟩
+      rw [if_pos hv]
+    · rw [if_neg hv] at hs
+      simp at hs
+  next => simp at hs
+
+/-- From the start of the small-step loop to its successful return every gang shrank by at most the
+    pod deletions that were delivered for it while the loop ran. -/
+theorem inspectLoop_shrunk (s : State) (grp : List GangId) (dels : List (List (Pod × GangId)))
+    (hn : NodupSets s) (hs : (inspectLoop s grp (dels.map delBatch)).1 = true) (h : GangId) :
+    Shrunk s (inspectLoop s grp (dels.map delBatch)).2.1 h (racing h (dels.take grp.length).flatten) := by
+  induction grp generalizing s dels with
+  | nil =>
+    simp only [inspectLoop, List.length_nil, List.take_zero, List.flatten_nil]
+    exact Shrunk.refl s h
+  | cons a t ih =>
+    obtain ⟨gh, _, _, h1, h2⟩ := inspectLoop_cons_true s a t dels hs
+    rw [h2]
+    have hn' := delBatch_nodup (dels.headD []) s hn
+    have s1 := shrunk_delBatch (dels.headD []) s h hn
+    have s2 := ih (delBatch (dels.headD []) s) dels.tail hn' h1
+    have := s1.trans s2
+    have e : racing h (dels.take (a :: t).length).flatten =
+        racing h (dels.headD []) + racing h (dels.tail.take t.length).flatten := by
+      cases dels with
+      | nil => simp [racing]
+      | cons d ds => simp [racing_append]
+    rw [e]
+    exact this
+
+/-- valid when inspected + shrunk by at most k since  =>  what is left at return -/
+theorem valid_after_shrunk (s t : State) (a : GangId) (gs : Gang) (k : Nat)
+    (hg : findGang s.gangs a = some gs) (hv : validForPermit s gs = true) (hsh : Shrunk s t a k) :
+    (findGang t.gangs a = none ∧ 1 ≤ k) ∨
+    ∃ gt, findGang t.gangs a = some gt ∧ gt.init = true ∧
+      (gt.min ≤ (held gt : Int) + ((if gt.policy = 1 then 2 * k else k : Nat) : Int) ∨
+        (gt.policy ≠ 0 ∧ gt.policy ≠ 1 ∧ infoSat t gt.info = true)) := by
+  obtain ⟨hinf, _, hgs⟩ := hsh
+  obtain ⟨hi, hm⟩ := (validForPermit_iff s gs).mp hv
+  rcases hgs gs hg with h0 | ⟨gt, hgt, a1, a2, a3, a4, a5, a6⟩
+  · exact Or.inl h0
+  · right
+    refine ⟨gt, hgt, a1.trans hi, ?_⟩
+    rcases hm with hm | ⟨p0, p1, hsat⟩
+    · left
+      rw [a2]
+      unfold held at hm ⊢
+      rw [a3]
+      by_cases hp : gs.policy = 1
+      · simp only [hp, if_true] at hm ⊢
+        omega
+      · simp only [hp, if_false] at hm ⊢
+        omega
+    · right
+      rw [a3, a4]
+      exact ⟨p0, p1, by rw [infoSat_congr (s := t) (t := s) hinf]; exact hsat⟩
+
+/-- STRONGEST STATEMENT FOR THE RACY CASE (pod deletions racing the loop of Permit).  `dels[j]` are the
+    deletions the informer goroutine delivers just before the j-th inspection.  If the small-step
+    Permit succeeds then, in the state it returns in, the i-th gang of the group
+      * has left the cache — only possible if a deletion of one of its members raced, or
+      * is initialised and holds its minimum minus the number k of deletions of ITS members delivered
+        AFTER it was inspected (2k under waiting-and-running, where one pod can count twice), or
+      * is exempt (once-satisfied policy and the group was satisfied before).
+    In particular a gang none of whose members was deleted after its inspection is still valid. -/
+theorem permit_race_bound (s : State) (grp : List GangId) (dels : List (List (Pod × GangId)))
+    (hn : NodupSets s) (hs : (inspectLoop s grp (dels.map delBatch)).1 = true)
+    (i : Nat) (hi : i < grp.length) :
+    (findGang (inspectLoop s grp (dels.map delBatch)).2.1.gangs grp[i] = none ∧
+        1 ≤ racing grp[i] ((dels.drop (i + 1)).take (grp.length - (i + 1))).flatten) ∨
+    ∃ gt, findGang (inspectLoop s grp (dels.map delBatch)).2.1.gangs grp[i] = some gt ∧ gt.init = true ∧
+      (gt.min ≤ (held gt : Int) +
+          ((if gt.policy = 1 then 2 * racing grp[i] ((dels.drop (i + 1)).take (grp.length - (i + 1))).flatten
+            else racing grp[i] ((dels.drop (i + 1)).take (grp.length - (i + 1))).flatten : Nat) : Int) ∨
+        (gt.policy ≠ 0 ∧ gt.policy ≠ 1 ∧
+          infoSat (inspectLoop s grp (dels.map delBatch)).2.1 gt.info = true)) := by
+  induction grp generalizing s dels i with
+  | nil => exact absurd hi (by simp)
+  | cons a t ih =>
+    obtain ⟨gh, hg, hv, h1, h2⟩ := inspectLoop_cons_true s a t dels hs
+    rw [h2]
+    have hn' := delBatch_nodup (dels.headD []) s hn
+    cases i with
+    | zero =>
+      have hsh := inspectLoop_shrunk (delBatch (dels.headD []) s) t dels.tail hn' h1 a
+      have e : ((dels.drop (0 + 1)).take ((a :: t).length - (0 + 1))) = dels.tail.take t.length := by
+        simp [List.drop_one]
+      simp only [List.getElem_cons_zero]
+      rw [e]
+      exact valid_after_shrunk _ _ a gh _ hg hv hsh
+    | succ j =>
+      have hj : j < t.length := by simpa using hi
+      have := ih (delBatch (dels.headD []) s) dels.tail hn' h1 j hj
+      have e : ((dels.drop (j + 1 + 1)).take ((a :: t).length - (j + 1 + 1))) =
+          (dels.tail.drop (j + 1)).take (t.length - (j + 1)) := by
+        cases dels with
+        | nil => simp
+        | cons d ds => simp
+      simp only [List.getElem_cons_succ]
+      rw [e]
+      exact this
+
+/-- non-vacuity, on the race of `permit_race_witness`: gang 0 is inspected, then its only member is
+    deleted; at return it holds 0 = min 1 - 1 racing deletion -/
+example : racing 0 (([[], [(0, 0)]].drop 1).take 1).flatten = 1 := by decide
+
+/-- a gang none of whose members was deleted after its inspection is still valid when Permit returns -/
+theorem permit_race_unraced_valid (s : State) (grp : List GangId) (dels : List (List (Pod × GangId)))
+    (hn : NodupSets s) (hs : (inspectLoop s grp (dels.map delBatch)).1 = true)
+    (i : Nat) (hi : i < grp.length)
+    (h0 : racing grp[i] ((dels.drop (i + 1)).take (grp.length - (i + 1))).flatten = 0) :
+    ∃ gt, findGang (inspectLoop s grp (dels.map delBatch)).2.1.gangs grp[i] = some gt ∧
+      validForPermit (inspectLoop s grp (dels.map delBatch)).2.1 gt = true := by
+  rcases permit_race_bound s grp dels hn hs i hi with ⟨_, h1⟩ | ⟨gt, hg, hi', hm⟩
+  · rw [h0] at h1; exact absurd h1 (by decide)
+  · refine ⟨gt, hg, (validForPermit_iff _ gt).mpr ⟨hi', ?_⟩⟩
+    rw [h0] at hm
+    rcases hm with hm | hm
+    · left
+      simpa using hm
+    · exact Or.inr hm
+
+theorem nodup_sIns (x : Nat) (l : List Nat) (h : l.Nodup) : (sIns x l).Nodup := by
+  unfold sIns
+  split
+  · exact h
+  next hx => exact List.nodup_cons.mpr ⟨hx, h⟩
+
+def PodSets.ND (g : PodSets) : Prop := g.waiting.Nodup ∧ g.bound.Nodup
+
+theorem setChild_waiting (g : PodSets) (p : Pod) (n : Bool) : (g.setChild p n).waiting = g.waiting := by
+  unfold PodSets.setChild
+  simp only
+  split <;> rfl
+
+theorem setChild_bound (g : PodSets) (p : Pod) (n : Bool) : (g.setChild p n).bound = g.bound := by
+  unfold PodSets.setChild
+  simp only
+  split <;> rfl
+
+theorem nd_setInv : SetInv PodSets.ND := by
+  refine ⟨?_, ?_, ?_, ?_, ?_, ?_⟩
+  · simp [PodSets.ND, PodSets.empty]
+  · intro g p h
+    unfold PodSets.ND
+    rw [setChild_waiting, setChild_bound]
+    exact h
+  · intro g p h
+    unfold PodSets.ND PodSets.addBound
+    simp only
+    rw [setChild_waiting, setChild_bound]
+    exact ⟨nodup_sDel _ _ h.1, nodup_sIns _ _ h.2⟩
+  · intro g p h
+    exact ⟨nodup_sDel _ _ h.1, nodup_sIns _ _ h.2⟩
+  · intro g p h
+    unfold PodSets.ND PodSets.delAssumed at *
+    split
+    · exact ⟨nodup_sDel _ _ h.1, h.2⟩
+    · exact h
+  · intro g p h
+    exact ⟨nodup_sDel _ _ h.1, nodup_sDel _ _ h.2⟩
+
+/-- the hypothesis of `permit_race_bound` holds in every reachable state -/
+theorem nodupSets_all_histories (ops : List Op) : NodupSets (run init ops) := by
+  have key : ∀ (s : State) (ops : List Op), AllG PodSets.ND s.gangs → AllG PodSets.ND (run s ops).gangs := by
+    intro s ops
+    induction ops generalizing s with
+    | nil => exact fun h => h
+    | cons o os ih =>
+      intro h
+      exact ih _ (step_allG nd_setInv (Q := fun _ _ => True)
+        (fun g p hg _ => ⟨nodup_sIns _ _ hg.1, hg.2⟩) s o h (fun _ _ _ _ _ _ => trivial))
+  exact key init ops (fun g hg => by simp [init] at hg)
+
 /-! ## E. goroutines racing on one gang (critical-section granularity) -/
 
 /-- Informer, scheduling and binding goroutines, any number of them, each making any sequence of
@@ -494,6 +709,24 @@ theorem setChild_atomic_safe (g : PodSets) (progs : List (List Call)) (sched : L
     (hg : g.Disj) (hc : (start 1 g progs).contract sched = true) :
     ((start 1 g progs).run sched).g.Disj :=
   run_whole_disj _ sched (start_one_allWhole g progs) hg hc
+
+/-- ... and at every BARRIER (all goroutines have returned from all their calls) the full partition
+    holds: every member is in exactly one of pending / waiting / bound.  (Between `setChild` and
+    `addBoundPod` of one onPodAdd a bound pod is transiently in no set: `Conf.CovX`.) -/
+theorem setChild_atomic_partition_at_barrier (g : PodSets) (progs : List (List Call)) (sched : List Nat)
+    (hg : g.Part) (hc : (start 1 g progs).contract sched = true)
+    (hq : ((start 1 g progs).run sched).quiescent) :
+    ((start 1 g progs).run sched).g.Part := by
+  have hd := setChild_atomic_safe g progs sched (part_disj hg) hc
+  have hcov : (start 1 g progs).CovX := by
+    intro q hq'
+    rcases hg.2.2.2 q hq' with h | h | h
+    · exact Or.inl h
+    · exact Or.inr (Or.inl h)
+    · exact Or.inr (Or.inr (Or.inl h))
+  have := covX_quiescent _ hq
+    (run_covX _ sched (start_one_allWhole g progs) (start_one_allWF g progs) hcov hc (part_disj hg))
+  exact ⟨hd.1, hd.2.1, hd.2.2, this⟩
 
 /-- The same statement is FALSE when setChild is two critical sections (decide not-waiting /
     not-bound; unlock; re-lock; insert into PendingChildren): informer `decide`, scheduler
